@@ -1,0 +1,51 @@
+//go:build verif
+// +build verif
+
+package goskipiter
+
+// Contracts for the deductive verifier in /verif (gvc); compiled only with the
+// build tag "verif". The wrapper makes Seek+Next deliver the sought element:
+// after Seek the next Next reports whether the seek found a position and does
+// not move; otherwise Next moves the inner iterator.
+
+//@ func New
+//@ props C04 C03 C13 C14 C09
+//@ ensures [C04]     init:   ret0 != nil && fresh(ret0) && ret0.inner == inner && !ret0.didSeek
+//@ modifies nothing
+
+//@ func (*Iterator).Next
+//@ props C04 C03 C13 C14 C09
+//@ requires          it:     iter != nil && iter.inner != nil
+//@ ensures [C04]     seek:   imp(old(iter.didSeek), ok == old(iter.seekWasOK) && !iter.didSeek && it_idx(iter.inner) == old(it_idx(iter.inner)))
+//@ ensures [C04]     step:   imp(!old(iter.didSeek), !iter.didSeek &&
+//@                             iff(ok, old(it_idx(iter.inner)) + 1 < sl_len(it_list(iter.inner))) &&
+//@                             it_idx(iter.inner) == ite(ok, old(it_idx(iter.inner)) + 1, old(it_idx(iter.inner))))
+//@ ensures           same:   iter.inner == old(iter.inner) && iter.seekWasOK == old(iter.seekWasOK)
+//@ modifies iter.didSeek, it_idx(iter.inner)
+
+//@ func (*Iterator).Key
+//@ props C04 C03 C13 C14 C09
+//@ requires          it:     iter != nil && iter.inner != nil
+//@ ensures [C04]     key:    imp(it_idx(iter.inner) >= 0, ret0 == sl_key(it_list(iter.inner))[it_idx(iter.inner)])
+//@ ensures [C04]     hdr:    imp(it_idx(iter.inner) < 0, ret0 == nil)
+//@ modifies nothing
+
+//@ func (*Iterator).Value
+//@ props C04 C03 C13 C14 C09
+//@ requires          it:     iter != nil && iter.inner != nil
+//@ ensures [C04]     val:    imp(it_idx(iter.inner) >= 0, ret0 == sl_val(it_list(iter.inner))[sl_key(it_list(iter.inner))[it_idx(iter.inner)]])
+//@ ensures [C04]     member: imp(it_idx(iter.inner) >= 0 && it_idx(iter.inner) < sl_len(it_list(iter.inner)),
+//@                             sl_has(it_list(iter.inner))[sl_key(it_list(iter.inner))[it_idx(iter.inner)]])
+//@ modifies nothing
+
+//@ func (*Iterator).Seek
+//@ props C04 C03 C13 C14 C09
+//@ requires          it:     iter != nil && iter.inner != nil
+//@ ensures [C04]     flag:   iter.didSeek && iter.seekWasOK == ok && iter.inner == old(iter.inner)
+//@ ensures [C04]     found:  imp(ok, 0 <= it_idx(iter.inner) && it_idx(iter.inner) < sl_len(it_list(iter.inner)) &&
+//@                             all(i, it_idx(iter.inner), sl_len(it_list(iter.inner)), !key_lt(sl_key(it_list(iter.inner))[i], key)) &&
+//@                             all(i, it_idx(iter.inner) + 1, sl_len(it_list(iter.inner)), key_lt(sl_key(it_list(iter.inner))[it_idx(iter.inner)], sl_key(it_list(iter.inner))[i])) &&
+//@                             all(i, 0, it_idx(iter.inner), key_lt(sl_key(it_list(iter.inner))[i], key)))
+//@ ensures [C04]     beyond: imp(!ok, it_idx(iter.inner) == old(it_idx(iter.inner)) &&
+//@                             all(i, 0, sl_len(it_list(iter.inner)), key_lt(sl_key(it_list(iter.inner))[i], key)))
+//@ modifies iter.didSeek, iter.seekWasOK, it_idx(iter.inner)
